@@ -95,7 +95,7 @@ func (tr *Tr) lookupLocal(env *Env, name string) (EVal, bool) {
 				var best *localRef
 				for k := range refs {
 					r := &refs[k]
-					if r.blk == b && (b != fr.cur || true) {
+					if r.blk == b && (b != fr.cur || hdr != nil || r.idx < fr.curIdx) {
 						if best == nil || r.idx > best.idx {
 							best = r
 						}
@@ -106,8 +106,12 @@ func (tr *Tr) lookupLocal(env *Env, name string) (EVal, bool) {
 				}
 			}
 		}
-		// fall back: unique value among all refs
+		// fall back: unique value among all refs (not for return-site assertions: an unassigned local reads as zero there)
 		uniq := map[ssa.Value]bool{}
+		if env.zeroLocals {
+			uniq[nil] = true
+			uniq[refs[0].v] = true
+		}
 		for _, r := range refs {
 			uniq[r.v] = true
 		}
@@ -119,6 +123,14 @@ func (tr *Tr) lookupLocal(env *Env, name string) (EVal, bool) {
 		if p.Name() == name {
 			return mk(p, false)
 		}
+	}
+	if env.zeroLocals && len(refs) > 0 {
+		// declared somewhere in the function but not assigned on the way here
+		t := refs[0].v.Type()
+		if refs[0].isAddr {
+			t = t.Underlying().(*types.Pointer).Elem()
+		}
+		return EVal{V: tr.zeroVal(shape(t)), T: t}, true
 	}
 	for _, fv := range fn.FreeVars {
 		if fv.Name() == name {
